@@ -40,7 +40,9 @@ fn dialect() -> Dialect {
 }
 
 fn globals() -> Globals {
-    Globals::extended_internal()
+    use dupe::Dupe;
+    static G: std::sync::OnceLock<Globals> = std::sync::OnceLock::new();
+    G.get_or_init(Globals::extended_internal).dupe()
 }
 
 /// Names bound at module level (not inside defs), in source order, de-duplicated.
@@ -191,42 +193,45 @@ fn encode(v: Value, depth: usize) -> J {
     }
 }
 
-/// Evaluate the module; returns (ok, error text, values of `names`).
-fn evaluate(src: &str, names: &[String], static_tc: bool) -> Result<(bool, String, Vec<(String, J, String)>), String> {
-    let src = src.to_owned();
+/// Evaluate the module chunk by chunk (each chunk = one top-level statement of the generated
+/// module) in ONE module environment, continuing after a failing chunk, so that one run-time
+/// error costs one observation only.  Returns (failures [(chunk, text)], values of `names`).
+fn evaluate(chunks: &[String], names: &[String], static_tc: bool) -> Result<(Vec<(usize, String)>, Vec<(String, J, String)>), String> {
+    let chunks = chunks.to_vec();
     let names = names.to_vec();
     util::catch(move || {
-        let ast = match AstModule::parse("m.star", src, &dialect()) {
-            Ok(a) => a,
-            Err(e) => return (false, format!("parse: {:#}", e), Vec::new()),
-        };
         let g = globals();
         Module::with_temp_heap(|module| {
-            let res = {
+            let mut fails = Vec::new();
+            for (i, src) in chunks.iter().enumerate() {
+                let ast = match AstModule::parse("m.star", src.clone(), &dialect()) {
+                    Ok(a) => a,
+                    Err(e) => {
+                        fails.push((i, format!("parse: {:#}", e)));
+                        continue;
+                    }
+                };
                 let mut eval = Evaluator::new(&module);
                 if static_tc {
                     eval.enable_static_typechecking(true);
                 }
-                eval.eval_module(ast, &g).map(|_| ())
-            };
-            let mut vals = Vec::new();
-            for n in &names {
-                if let Some(v) = module.get(n) {
-                    let r = util::catch(|| v.to_repr()).unwrap_or_else(|_| "<repr panicked>".to_owned());
-                    let r: String = r.chars().take(200).collect();
-                    vals.push((n.clone(), encode(v, 0), r));
-                }
-            }
-            match res {
-                Ok(()) => (true, String::new(), vals),
-                Err(e) => {
+                if let Err(e) = eval.eval_module(ast, &g) {
                     let sp = match e.span() {
                         Some(s) => format!("{}", s),
                         None => "-".to_owned(),
                     };
-                    (false, format!("{} {}", sp, e.without_diagnostic()), vals)
+                    fails.push((i, format!("{} {}", sp, e.without_diagnostic())));
                 }
             }
+            let mut vals = Vec::new();
+            for n in &names {
+                if let Some(v) = module.get(n) {
+                    let r = util::catch(|| v.to_repr()).unwrap_or_else(|_| "<repr panicked>".to_owned());
+                    let r: String = r.chars().take(160).collect();
+                    vals.push((n.clone(), encode(v, 0), r));
+                }
+            }
+            (fails, vals)
         })
     })
 }
@@ -274,15 +279,21 @@ fn run_check(case: &J, eval: bool) -> J {
     out.insert("tc".into(), diag_json(&d1));
     out.insert("tc_ms".into(), json!(t0.elapsed().as_millis() as u64));
     if eval {
+        let chunks: Vec<String> = match case["chunks"].as_array() {
+            Some(a) => a.iter().filter_map(|x| x.as_str().map(|s| s.to_owned())).collect(),
+            None => vec![src.to_owned()],
+        };
         for (key, stc) in [("eval", false), ("eval_static", true)] {
-            match evaluate(src, &exports, stc) {
+            match evaluate(&chunks, &exports, stc) {
                 Err(p) => {
-                    out.insert(key.into(), json!({"ok": false, "panic": p}));
+                    out.insert(key.into(), json!({"panic": p}));
                 }
-                Ok((ok, err, vals)) => {
+                Ok((fails, vals)) => {
                     let mut m = serde_json::Map::new();
-                    m.insert("ok".into(), J::Bool(ok));
-                    m.insert("err".into(), J::String(err));
+                    m.insert(
+                        "fails".into(),
+                        J::Array(fails.into_iter().map(|(i, e)| json!({"chunk": i, "err": e})).collect()),
+                    );
                     if !stc {
                         m.insert(
                             "values".into(),
@@ -338,10 +349,10 @@ fn probe(path: &str) -> anyhow::Result<()> {
             print!("{}", d.text());
             let names: Vec<String> = d.iface.iter().map(|x| x.0.clone()).collect();
             for stc in [false, true] {
-                match evaluate(&src, &names, stc) {
+                match evaluate(&[src.clone()], &names, stc) {
                     Err(p) => println!("EVAL PANIC {}", p),
-                    Ok((ok, err, vals)) => {
-                        println!("EVAL static={} ok={} {}", stc, ok, err);
+                    Ok((fails, vals)) => {
+                        println!("EVAL static={} fails={:?}", stc, fails);
                         if !stc {
                             for (n, v, r) in vals {
                                 println!("V {} = {} {}", n, r, v);
